@@ -22,10 +22,8 @@ All equalities are unconditional.  `uint_tied` is the only one whose proof looks
 the panic site) because the scanner has demanded `offset` bytes (`PM.digitsCont_spec`).
 
 Not translated (reasons also in `tools/unit_aigertoken.py`); where a translated function calls one of these, the
-generated code calls its hand model, and these five stay tied by the correspondence runs only:
+generated code calls its hand model, and these four stay tied by the correspondence runs only:
   `unexpected`              Vec / `format!` / `from_utf8_lossy` message building          (`Aiger.unexpected`)
-  `binary_uint`             `let reader = input.reader()` alias, `for … in buf()[..n].iter().rev()`, wrapping
-                            `usize` shifts, `u8 & …`: outside the emitter's subset         (`Aiger.binaryUint`)
   `exceeds_count`           branches on `value.starts_with('0')` (strings are not modelled) only to choose the
                             message; both branches are `give_up_at(mark)`                  (`Aiger.errorAtMark`)
   `remaining_line_content`  std UTF-8 validation, `from_utf8_unchecked`
